@@ -1,0 +1,26 @@
+//go:build verif
+
+package sqlx
+
+// Contracts for the deductive verifier in /verif (govc). Comment-only file: adds no code.
+
+// transactOnConn: commit iff fn returned nil; otherwise exactly one rollback; a panic of fn is rolled back
+// and reported. b, fn, tx.Commit, tx.Rollback are opaque: every result (and a panic of fn) is possible.
+//@ func transactOnConn
+//@   prop C11
+//@   may-panic fn
+//@   let tx = ret(b, 0)
+//@   observe BeginFails = ret(b, 1) != nil
+//@   observe FnPanics = panicked(fn)
+//@   observe FnErr = calls(fn) == 1 && !panicked(fn) && ret(fn) != nil
+//@   observe CommitErr = calls(tx.Commit) == 1 && ret(tx.Commit) != nil
+//@   observe RollbackErr = calls(tx.Rollback) == 1 && ret(tx.Rollback) != nil
+//@   replay sqlx_transactOnConn
+//@   ensures [begin-fails] ret(b, 1) != nil ==> calls(fn) == 0 && calls(Commit) == 0 && calls(Rollback) == 0 && err == ret(b, 1)
+//@   ensures [commit-iff-nil] ret(b, 1) == nil && !panicked(fn) && ret(fn) == nil ==> calls(tx.Commit) == 1 && calls(tx.Rollback) == 0 && err == ret(tx.Commit)
+//@   ensures [rollback-on-error] ret(b, 1) == nil && !panicked(fn) && ret(fn) != nil ==> calls(tx.Rollback) == 1 && calls(tx.Commit) == 0 && err != nil
+//@   ensures [rollback-on-panic] ret(b, 1) == nil && panicked(fn) ==> calls(tx.Rollback) == 1 && calls(tx.Commit) == 0 && err != nil
+//@   ensures [nil-means-one-commit] err == nil ==> calls(Commit) == 1 && calls(Rollback) == 0
+//@   ensures [non-nil-means-no-commit-or-failed-commit] err != nil && ret(b, 1) == nil ==> calls(Commit) + calls(Rollback) == 1
+//@   ensures [fn-once] ret(b, 1) == nil ==> calls(fn) == 1
+//@   panic-ensures [panic-rolled-back] calls(Rollback) == 1 && calls(Commit) == 0
